@@ -38,7 +38,7 @@ SPEC = {
             "arb_tx_values": 36, "mutants_rejected": 70_000, "mutants_accepted": 10_000,
             "op_truncate": 15_000, "op_bitflip": 12_000, "op_cs-noncanonical": 12_000, "op_count-huge": 10_000,
             "op_count-plus1": 5000, "op_count-minus1": 3000, "op_amount-out-of-range": 6000, "op_all-ones": 2000,
-            "op_flags-reserved": 400, "op_header-value": 3000, "op_splice": 1500, "op_other-branch": 800,
+            "op_flags-reserved": 400, "op_header-value": 3000, "op_splice": 1500, "op_other-branch": 800, "op_branch-swap": 1000,
             "boundary_amounts_accepted": 1500, "suffix_cases": 700,
             "shape_all_bundles_empty": 80, "shape_sapling_spends_only": 60, "shape_sapling_outputs_only": 60,
             "shape_compactsize_253_boundary": 60, "shape_compactsize_64k_boundary": 6, "shape_script_64k": 6,
